@@ -40,6 +40,8 @@ impl WalCleaner {
             // Archive WAL files before deletion
             let archiver = WalArchiver::new(self.shard_id);
             let archive_results = archiver.archive_logs_up_to(keep_from_log_id);
+            #[cfg(sneldb_verif)]
+            crate::verif_hooks::step("walclean.archived");
 
             // Count successes and failures
             let success_count = archive_results.iter().filter(|r| r.is_ok()).count();
@@ -101,6 +103,8 @@ impl WalCleaner {
                                         );
                                     }
                                 }
+                                #[cfg(sneldb_verif)]
+                                crate::verif_hooks::step("walclean.deleted");
                             }
                         }
                     }
